@@ -238,6 +238,13 @@ pub fn run(scn: &MScn, oracles: &[Oracle], out: &mut Outcome, fp: &mut Fp, tr: &
                             Ok(a) => a,
                             Err(p) => fail!("panic-in-prefetch_pc", p),
                         };
+                        if k == "Interrupt" {
+                            // an external interrupt is reported before anything is fetched: no instruction
+                            // faulted, the machine stands at the instruction it will execute on resume
+                            if has(Oracle::Core) && (got != w.sim.pc || w.sim.pc != m.pc) {
+                                fail!("prefetch-pc", format!("after Err(Interrupt) at pc x{:04X} (model x{:04X}): prefetch_pc() = x{got:04X}", w.sim.pc, m.pc));
+                            }
+                        }
                         if k != "Interrupt" {
                             if got != fault {
                                 fail!("prefetch-pc", format!("after Err({k}) prefetch_pc() = x{got:04X}, faulting instruction is at x{fault:04X}"));
